@@ -12,7 +12,6 @@ Local Open Scope N_scope.
 Definition proved_family (r : report) : bool :=
   match r with
   | RSgr _ => false
-  | RXterm _ mods _ => mods <? 8      (* known finding C04-key-mask: the table stops at mask 7 *)
   | RFaceReport p => negb (sgr_inexpressible p)   (* known finding: 7/27/39/49, see face_report_recorded *)
   | _ => true
   end.
@@ -23,7 +22,7 @@ Proof.
   destruct r; try discriminate.
   - cbn [wf] in Hwf. destruct (lit_lookup prod_key_table w) eqn:E; [|discriminate].
     apply single_literal; [rewrite E; discriminate| apply negb_true_iff, Hwf].
-  - apply single_xterm; [apply N.ltb_lt, Hp| exact Hwf].
+  - apply single_xterm, Hwf.
   - apply single_char, Hwf.
   - apply single_kitty, Hwf.
   - apply single_level.
@@ -96,10 +95,9 @@ Proof.
 Qed.
 
 Theorem xterm_keys_decode k mods alt_form rest :
-  mods < 8 ->
   wf decmode_all prod_key_table (RXterm k mods alt_form) = true ->
   prod_decode (print (RXterm k mods alt_form) ++ rest) = (EKey k mods :: fst (prod_decode rest), snd (prod_decode rest)).
-Proof. intros Hm H. exact (decode_single _ _ rest (single_xterm k mods alt_form Hm H)). Qed.
+Proof. intros H. exact (decode_single _ _ rest (single_xterm k mods alt_form H)). Qed.
 
 Theorem sgr_event_decode p rest :
   SgrRef.sgr_wf p = true -> SgrRef.sgr_inexpressible p = false ->
